@@ -447,7 +447,7 @@ func runC10(c *Ctx) {
 // channels would be refused (or junk accepted) under every segmentation.
 func ruleFramerClassification(c *Ctx, rule string) {
 	w := c.W
-	c.Rule(rule, "classification agreement: every return of the invalid-frame error in consumeSingleTURNFrame is control-dependent (through helpers) on ChannelNumber.Valid applied to the buffer's leading 16 bits — the framer has no second notion of which channel numbers exist", 1)
+	c.Rule(rule, "classification agreement: every return of the invalid-frame error in consumeSingleTURNFrame is control-dependent (through helpers) on ChannelNumber.Valid applied to the buffer's leading 16 bits, or the function classifies by the first byte on exactly the boundaries 0x40..0x7F (the same set) — the framer has no second notion of which channel numbers exist", 1)
 	consume := w.Func("proto", "", "consumeSingleTURNFrame")
 	valid := w.Func("proto", "ChannelNumber", "Valid")
 	c.Anchor(rule, "invalid verdict")
@@ -475,8 +475,14 @@ func ruleFramerClassification(c *Ctx, rule string) {
 				}
 			}
 		}
+		if !dep {
+			// the same decision taken on the first byte, on exactly the range's boundaries
+			if lo, up, other := firstByteClass(w, consume); lo && up && other == "" {
+				dep = true
+			}
+		}
 		if dep {
-			c.OK(rule, fname(consume), "invalid verdict", w.instrPos(r), "reached only after ChannelNumber.Valid refused the leading 16 bits")
+			c.OK(rule, fname(consume), "invalid verdict", w.instrPos(r), "reached only after ChannelNumber.Valid (or the first-byte class 0x40..0x7F, which is the same set) refused the leading 16 bits")
 		} else {
 			c.Bad(rule, fname(consume), "invalid verdict", w.instrPos(r), "this return of the invalid-frame error does not depend on ChannelNumber.Valid of the leading 16 bits: the framer decides by another notion of channel numbers, so ChannelData on some valid channels is refused on a stream (under every segmentation) or junk is taken for a frame", w.factsDesc(r)...)
 		}
